@@ -172,19 +172,19 @@ pub fn c13_t_g2_tri_r4<S: Src>(s: &mut S) {
 pub fn c13_t_g2_tri_r6<S: Src>(s: &mut S) {
     poly_body::<S, 3>(s, 6)
 }
-pub fn c13_t_g2_quad_r3<S: Src>(s: &mut S) {
+pub fn c13_x_g2_quad_r3<S: Src>(s: &mut S) {
     poly_body::<S, 4>(s, 3)
 }
-pub fn c13_t_g2_quad_r4<S: Src>(s: &mut S) {
+pub fn c13_x_g2_quad_r4<S: Src>(s: &mut S) {
     poly_body::<S, 4>(s, 4)
 }
-pub fn c13_t_g2_pent_r2<S: Src>(s: &mut S) {
+pub fn c13_x_g2_pent_r2<S: Src>(s: &mut S) {
     poly_body::<S, 5>(s, 2)
 }
-pub fn c13_t_g2_pent_r3<S: Src>(s: &mut S) {
+pub fn c13_x_g2_pent_r3<S: Src>(s: &mut S) {
     poly_body::<S, 5>(s, 3)
 }
-pub fn c13_t_g2_hex_r2<S: Src>(s: &mut S) {
+pub fn c13_x_g2_hex_r2<S: Src>(s: &mut S) {
     poly_body::<S, 6>(s, 2)
 }
 
@@ -353,11 +353,11 @@ harnesses! { k, "sel_c13.rs";
     #[kani::unwind(6)] c13_t_g2_quad_r2;
     #[kani::unwind(5)] c13_t_g2_tri_r4;
     #[kani::unwind(5)] c13_t_g2_tri_r6;
-    #[kani::unwind(6)] c13_t_g2_quad_r3;
-    #[kani::unwind(6)] c13_t_g2_quad_r4;
-    #[kani::unwind(7)] c13_t_g2_pent_r2;
-    #[kani::unwind(7)] c13_t_g2_pent_r3;
-    #[kani::unwind(8)] c13_t_g2_hex_r2;
+    #[kani::unwind(6)] c13_x_g2_quad_r3;
+    #[kani::unwind(6)] c13_x_g2_quad_r4;
+    #[kani::unwind(7)] c13_x_g2_pent_r2;
+    #[kani::unwind(7)] c13_x_g2_pent_r3;
+    #[kani::unwind(8)] c13_x_g2_hex_r2;
     #[kani::unwind(6)] c13_t_g2_repeat0;
     #[kani::unwind(6)] c13_q_g2_repeat1;
     #[kani::unwind(6)] c13_t_g2_repeat2;
